@@ -986,3 +986,32 @@ func ErrorReturnsFrom(starts []Edge, avoid []Edge) []ErrReturn {
 	sort.Slice(out, func(i, j int) bool { return out[i].At.Pos() < out[j].At.Pos() })
 	return out
 }
+
+// BoolReturnsFrom explores, path-sensitively, everything reachable from the
+// start edges and reports for every return of result idx what the path knows
+// about it (NonNil = true / non-zero, Nil = false / zero).
+func BoolReturnsFrom(starts []Edge, idx int) []ErrReturn {
+	if len(starts) == 0 {
+		return nil
+	}
+	type key struct {
+		in  ssa.Instruction
+		val absval
+	}
+	dedup := map[key]bool{}
+	var out []ErrReturn
+	reachVisit(nil, starts, map[Edge]bool{}, nil, nil, func(b *ssa.BasicBlock, fi *fnInfo, env *penv) {
+		r, ok := b.Instrs[len(b.Instrs)-1].(*ssa.Return)
+		if !ok || idx >= len(r.Results) {
+			return
+		}
+		v := ReturnValue(r, idx)
+		a := fi.abs(v, env, b, -1, 0)
+		if dedup[key{r, a}] {
+			return
+		}
+		dedup[key{r, a}] = true
+		out = append(out, ErrReturn{At: r, Val: v, NonNil: a == nonzero, Nil: a == zero})
+	})
+	return out
+}
